@@ -105,6 +105,7 @@ type c14Desc struct {
 type c14Fresh struct {
 	vars  string
 	valid bool
+	errs  string // the validation error text of the fresh instance ("" when valid)
 }
 
 type c14World struct {
@@ -222,8 +223,11 @@ func (d *c14Desc) freshEval(bits []bool) c14Fresh {
 		cm.SetManagementAction(i, b)
 	}
 	sol := new(solution.SolutionBuilder).WithId("fresh").ForModel(cm).Build()
-	valid, _ := cm.StateIsValid()
+	valid, verrs := cm.StateIsValid()
 	f := c14Fresh{vars: c14Canon(sol.DecisionVariables), valid: valid}
+	if !valid && verrs != nil {
+		f.errs = verrs.Error()
+	}
 	d.fresh[key] = f
 	if !valid {
 		d.invalid[key] = true
@@ -513,8 +517,9 @@ func c14ActionMap(v interface{}) (map[string][]string, bool) {
 	return out, true
 }
 
-// c14Attrs: ordered attribute list of a served solution; the ValidationErrors text is replaced by "E".
-func c14Attrs(v interface{}) ([][]interface{}, bool) {
+// c14Attrs: ordered attribute list of a served solution; a ValidationErrors value equal to the validation error text
+// of a fresh model instance in the served action set (engineErrs) is replaced by the token "E" (the model's d_errs).
+func c14Attrs(v interface{}, engineErrs string) ([][]interface{}, bool) {
 	if v == nil {
 		return [][]interface{}{}, true
 	}
@@ -537,7 +542,7 @@ func c14Attrs(v interface{}) ([][]interface{}, bool) {
 			return nil, false
 		}
 		if name == "ValidationErrors" {
-			if _, isStr := val.(string); isStr {
+			if text, isStr := val.(string); isStr && engineErrs != "" && text == engineErrs {
 				val = "E"
 			}
 		}
@@ -623,15 +628,18 @@ func (w *c14World) project(routeKind string, r c15Resp, d *c14Desc) J {
 		}
 		if id, has := x["Id"].(string); has {
 			m, ok := c14ActionMap(x["ActiveManagementActions"])
-			attrs, ok2 := c14Attrs(x["Attributes"])
+			varsOk := false
+			engineErrs := ""
+			if d != nil && ok {
+				if bits, okb := d.bitsOf(m); okb {
+					fresh := d.freshEval(bits)
+					varsOk = fresh.vars == c14Canon(x["DecisionVariables"])
+					engineErrs = fresh.errs
+				}
+			}
+			attrs, ok2 := c14Attrs(x["Attributes"], engineErrs)
 			if !ok || !ok2 || len(x) != 4 {
 				return other("malformed solution document")
-			}
-			varsOk := false
-			if d != nil {
-				if bits, okb := d.bitsOf(m); okb {
-					varsOk = d.freshEval(bits).vars == c14Canon(x["DecisionVariables"])
-				}
 			}
 			if routeKind == "solution" {
 				b := J{"k": "solution", "id": c14S(id), "active": c14MapJ(m), "vars_ok": varsOk,
